@@ -223,28 +223,43 @@ func runC01(c *Ctx) {
 			if !isPhi || len(phi.Edges) != 2 {
 				return
 			}
+			// the header generators may return (bytes, error) or just bytes
+			genOf := func(e ssa.Value) string {
+				e = core.StripConv(e)
+				if ex, isEx := e.(*ssa.Extract); isEx {
+					e = ex.Tuple
+				}
+				if cl, isCall := e.(*ssa.Call); isCall && cl.Call.StaticCallee() != nil {
+					return core.FnName(cl.Call.StaticCallee())
+				}
+				return ""
+			}
 			var names []string
 			for _, e := range phi.Edges {
-				if ex, isEx := e.(*ssa.Extract); isEx {
-					if cl, isCall := ex.Tuple.(*ssa.Call); isCall && cl.Call.StaticCallee() != nil {
-						names = append(names, core.FnName(cl.Call.StaticCallee()))
-					}
+				if n := genOf(e); n != "" {
+					names = append(names, n)
 				}
 			}
 			sort.Strings(names)
 			if strings.Join(names, ",") != "generateC0Header,generateC3Header" {
 				return
 			}
-			// the c0 edge is chosen when the header variable is still nil (first iteration)
 			for i, e := range phi.Edges {
-				ex := e.(*ssa.Extract)
-				if core.FnName(ex.Tuple.(*ssa.Call).Call.StaticCallee()) != "generateC0Header" {
+				if genOf(e) != "generateC0Header" {
 					continue
 				}
+				// (a) selected inside the loop: the c0 edge is chosen when the header variable is still nil (first iteration)
 				for _, a := range core.GuardAtoms(phi.Block().Preds[i]) {
 					if a.Op == "==" && a.R == "nil:[]byte" || a.Op == "==" && a.R == "nil" {
 						ok = true
 					}
+				}
+				// (b) carried by the loop: h := c0 before the loop, h = c3 at the end of every iteration - the phi sits in
+				// the loop header, its c0 edge comes from outside the loop and its c3 edge from inside
+				hdr := phi.Block()
+				other := phi.Block().Preds[1-i]
+				if !hdr.Dominates(phi.Block().Preds[i]) && hdr.Dominates(other) && hdr.Dominates(call.Block()) {
+					ok = true
 				}
 			}
 		})
